@@ -309,7 +309,8 @@ def submit_transfer(w, idx):
         info['key'] = t.get('key', f'up{idx}')
         src = t.get('src', 'path')
         if src == 'path':
-            p = os.path.join(w.scratch.path, f'src{idx}')
+            # `path_of`: the same file an earlier transfer uploaded, rewritten with this transfer's content
+            p = os.path.join(w.scratch.path, f"src{t.get('path_of', idx)}")
             with open(p, 'wb') as f:
                 f.write(info['expected'])
             fileobj = p
